@@ -1,13 +1,13 @@
 (** Server -> viewer leg of the logging proxy (C16) and, equally, the library client on a valid server
-    session (C02): a session made of FramebufferUpdates (Raw / CopyRect / RRE / CoRRE rectangles, any
-    mix, any number), Bells and ServerCutTexts, of any length, is consumed exactly and never raises: the
+    session (C02): a session made of FramebufferUpdates (Raw / CopyRect / RRE / CoRRE / Hextile rectangles,
+    any mix, any number), Bells and ServerCutTexts, of any length, is consumed exactly and never raises: the
     client ends idle at a message boundary with an empty buffer.  With the chunking theorem (C01) the
     same holds under every chunking. *)
 From Coq Require Import ZArith List Bool Lia.
 From RecordUpdate Require Import RecordSet.
 Import RecordSetNotations.
 From VD Require Import Base.Bytes Base.BytesP Base.Struct Gen.Tables Gen.Formats.
-From VD Require Import Model.Engine Model.ClientMsgs Model.Auth Model.Rfb Spec.C2S Proofs.C2SP Proofs.DecodeP Proofs.RreP Proofs.UpdateP.
+From VD Require Import Model.Engine Model.ClientMsgs Model.Auth Model.Rfb Spec.C2S Proofs.C2SP Proofs.DecodeP Proofs.RreP Proofs.HextileP Proofs.UpdateP.
 Import ListNotations.
 Open Scope Z_scope.
 
@@ -79,7 +79,7 @@ Proof. intros (Hp & _). unfold bypp. rewrite Hp. reflexivity. Qed.
 
 Lemma qok_fmt s s' q : same_fmt s s' -> qok s q -> qok s' q.
 Proof.
-  intros F. pose proof (bypp_fmt s s' F) as B. destruct q as [x y w h px|x y w h sx sy|x y w h bg subs|x y w h bg subs]; cbn [qok].
+  intros F. pose proof (bypp_fmt s s' F) as B. destruct q as [x y w h px|x y w h sx sy|x y w h bg subs|x y w h bg subs|x y w h ts|x y w h img mask]; cbn [qok].
   - rewrite B, (upd_raises_fmt s s' _ _ _ F). auto.
   - auto.
   - rewrite B. intros (Hx & Hy & Hw & Hh & Hbg & Hn & Hs & Hf0 & Hfs).
@@ -90,6 +90,10 @@ Proof.
     refine (conj Hx (conj Hy (conj Hw (conj Hh (conj Hbg (conj Hn (conj Hs (conj _ _)))))))).
     + eapply fill_ok_fmt; eassumption.
     + eapply Forall_impl; [|exact Hfs]. intros a. apply fill_ok_fmt. exact F.
+  - rewrite B. intros (A1 & A2 & A3 & A4 & A5 & A6 & A7 & A8 & A9).
+    refine (conj A1 (conj A2 (conj A3 (conj A4 (conj A5 (conj A6 (conj A7 (conj A8 _)))))))).
+    eapply tiles_ok_same; [exact B| |exact A9]. intros; apply upd_raises_fmt; exact F.
+  - rewrite B. auto.
 Qed.
 
 Lemma sok_fmt s s' m : same_fmt s s' -> sok s m -> sok s' m.
